@@ -1,6 +1,8 @@
 // zkexec: executes scenarios on the real zerokit code and records traces for the TLA+ judges.
 mod intern;
 #[cfg(not(feature = "stateless"))]
+mod proto_exec;
+#[cfg(not(feature = "stateless"))]
 mod rln_exec;
 #[cfg(all(feature = "pmtree", not(feature = "stateless")))]
 mod storage_exec;
@@ -29,6 +31,8 @@ fn main() {
         "tree" => cmd_tree(&args),
         #[cfg(not(feature = "stateless"))]
         "rln" => cmd_rln(&args),
+        #[cfg(not(feature = "stateless"))]
+        "proto" => cmd_proto(&args),
         #[cfg(all(feature = "pmtree", not(feature = "stateless")))]
         "storage" => cmd_storage(&args),
         c => {
@@ -83,6 +87,17 @@ fn cmd_storage(args: &[String]) {
     let mut it = Interner::new();
     let mut out = Vec::new();
     storage_exec::run(&scenario, dir, &mut it, &mut out);
+    write_ndjson(arg(args, "--out").expect("--out"), &out);
+    write_json(arg(args, "--tab").expect("--tab"), &it.tables());
+}
+
+/// zkexec proto --scenario S --out T --tab TAB : registration / prove / verify / recover scenarios at depth 20
+#[cfg(not(feature = "stateless"))]
+fn cmd_proto(args: &[String]) {
+    let scenario = read_ndjson(arg(args, "--scenario").expect("--scenario"));
+    let mut it = Interner::new();
+    let mut out = Vec::new();
+    proto_exec::run(&scenario, &mut it, &mut out);
     write_ndjson(arg(args, "--out").expect("--out"), &out);
     write_json(arg(args, "--tab").expect("--tab"), &it.tables());
 }
